@@ -281,6 +281,7 @@ func runC03(w *World, r *Report) {
 	shareRule(w, r, "C03.ready-needs-data", "a DAG node is ready only when every data predecessor has delivered, whatever its control predecessors: the result must not depend on whether a data-only source finishes before or after the control predecessors", 8, "C02", "C02.ready-guards")
 	shareRule(w, r, "C03.interrupt-waits-all", "a rerun / nested interrupt in an eager run collects every running sibling before the checkpoint is written and the run returns: no node is left executing behind the caller, and the resumed run has every output", 3, "C05", "C05.wait-all-before-save")
 	shareRule(w, r, "C03.post-handlers-under-the-state-lock", "state post-handlers run on the run loop while sibling nodes still execute: they take the state mutex like every other way into the state, or a sibling's read-modify-write that straddles them loses an update and the result depends on the schedule", 1, "C09", "C09.state-handlers-locked")
+	shareRule(w, r, "C03.fan-in-merges-own-their-array", "two fan-in nodes fed by one array-backed stream merge into slices of their own: what a join reads does not depend on which merge ran first", 1, "C08", "C08.array-alias")
 
 	r.Rule("C03.visits-all", "the loops over tasks, completed tasks, written channels and ready channels in the scheduler are left only when exhausted or with an error", 8)
 	ruleLoopsTotal(w, r, "C03.visits-all", []*ssa.Function{
